@@ -258,4 +258,3 @@ func TestEarlyBlock(t *testing.T) {
 		t.Fatal(err)
 	}
 }
-
